@@ -148,6 +148,9 @@ def classify(cls, x, y, diff):
 
 def run_case(case, ctx):
     import importlib
+    # every schema module loaded first, as in any process that uses the library (saml2_tophat.saml pulls in xmldsig and xmlenc, and xmlenc
+    # completes xmldsig's KeyInfo table when it is imported): what a class table holds must not depend on which case a worker meets first
+    schema.schema_modules()
     if case.get("kind") == "sweep":
         # all classes in one process in a given order: class-level state shared through inheritance (caches, tables patched at import) must not
         # make the result depend on what was serialised before
